@@ -38,7 +38,7 @@ FL_i8    := -O1 -DBUGSENG_PPL_VERIF
 FL_i16   := -O1 -DBUGSENG_PPL_VERIF
 FL_i32   := -O1 -DBUGSENG_PPL_VERIF
 FL_i64   := -O1 -DBUGSENG_PPL_VERIF
-FL_fuzz  := -O1 -DBUGSENG_PPL_VERIF -fsanitize=fuzzer-no-link,address,undefined -fno-sanitize-recover=undefined -Wno-unknown-warning-option -Wno-ignored-optimization-argument
+FL_fuzz  := -O1 -DBUGSENG_PPL_VERIF -fsanitize=fuzzer-no-link,address,undefined -fno-sanitize=pointer-overflow -fno-sanitize-recover=undefined -Wno-unknown-warning-option -Wno-ignored-optimization-argument
 FLAGS    := $(COMMON) $(FL_$(FLV))
 
 LDX_dbg  :=
@@ -99,9 +99,18 @@ $(B)/bin/%: $(B)/hobj/%.o $(B)/libppl.a
 	@mkdir -p $(B)/bin
 	$(CXX) $(FLAGS) $(LDX) $< $(B)/libppl.a $(HLIBS) -o $@
 
+# libFuzzer targets (FLV=fuzz only): bin/fz_<name> from harness/<name>.cc with the libFuzzer entry point of common.hh
+$(B)/hobj/fz_%.o: $(VERIF)/harness/%.cc $(B)/cfg/ppl-config.h
+	@mkdir -p $(B)/hobj
+	$(CXX) $(FLAGS) $(HINC) -DVF_LIBFUZZER -MMD -MP -c $< -o $@
+
+$(B)/bin/fz_%: $(B)/hobj/fz_%.o $(B)/libppl.a
+	@mkdir -p $(B)/bin
+	$(CXX) $(FLAGS) -fsanitize=fuzzer,address,undefined $< $(B)/libppl.a $(HLIBS) -o $@
+
 bin/%: $(B)/bin/% ;
 
-.PRECIOUS: $(B)/hobj/%.o $(B)/obj/%.o $(B)/bin/%
+.PRECIOUS: $(B)/hobj/%.o $(B)/obj/%.o $(B)/bin/% $(B)/bin/fz_% $(B)/hobj/fz_%.o
 
 -include $(wildcard $(B)/obj/*.d) $(wildcard $(B)/hobj/*.d)
 
